@@ -98,6 +98,20 @@ def execute(spec):
                 for j, bd in enumerate(tok.bond_descriptors):
                     node_of[(id(atok), j)] = bd
             _state_invariants(G, residues, ares, node_of, viol, stats)
+            # building the graph again from the same object must give the same graph
+            try:
+                from . import c10
+
+                G2 = mol.gen_reaction_graph()
+                if c10._graph_digest(G2) != c10._graph_digest(G):
+                    viol("graph_not_reproducible", "a second gen_reaction_graph() on the same molecule gives different nodes / edges / probabilities")
+                G = G2
+                node_of = {}
+                for k, (tok, atok) in enumerate(zip(residues, ares)):
+                    for j, bd in enumerate(tok.bond_descriptors):
+                        node_of[(id(atok), j)] = bd
+            except Exception as exc:
+                viol("graph_construction_raised", f"second gen_reaction_graph raised {exc!r}", ["exc=" + type(exc).__name__])
         if out.audit.violations:
             continue  # decisions that do not follow the notation are C08's business; the trace is then no oracle
         uid_tok = {u: rec["tok"] for u, rec in out.audit.inst.items()}
